@@ -284,6 +284,8 @@ class Gen:
         if l["t"] == "float" and r["t"] == "float":
             l = self.prior()
         lv, rv = self.var(), self.var()
+        while rv == lv:                   # two different operands need two different variables
+            rv = self.var()
         if rng.random() < 0.08 and l["t"] == "prior":
             r, rv = _copy.deepcopy(l), lv            # xx * xx : the two names coincide
         return {"t": "binop", "op": op, "l": l, "r": r, "lv": None if l["t"] == "float" else lv,
@@ -788,8 +790,9 @@ def differ_pairs(rng, S, gen):
         out.append({"kind": "pair", "how": how, "expect": "differ", "a": a or S, "b": b, "labels": list(labels)})
 
     # -- priors ---------------------------------------------------------------------
-    if pool:
-        i = rng.randrange(len(pool))
+    used = sorted({get_at(S["model"], p)["ref"] for p in sites(S, lambda x: x["t"] == "prior")})
+    if used:
+        i = rng.choice(used)              # (a pool entry may be unreferenced)
         p = pool[i]
         b = _copy.deepcopy(S)
         q = b["pool"][i]
